@@ -8,6 +8,12 @@ static LIVE: AtomicU64 = AtomicU64::new(0);
 static PEAK: AtomicU64 = AtomicU64::new(0);
 static ALLOCS: AtomicU64 = AtomicU64::new(0);
 static ON: AtomicBool = AtomicBool::new(false);
+/// when non-zero, allocations of at least this many bytes fail (return null)
+static REFUSE_FROM: AtomicU64 = AtomicU64::new(0);
+
+pub fn refuse_allocations_from(bytes: u64) {
+    REFUSE_FROM.store(bytes, Ordering::SeqCst);
+}
 
 #[inline]
 fn add(n: u64) {
@@ -20,6 +26,10 @@ fn add(n: u64) {
 
 unsafe impl GlobalAlloc for Meter {
     unsafe fn alloc(&self, l: Layout) -> *mut u8 {
+        let lim = REFUSE_FROM.load(Ordering::Relaxed);
+        if lim != 0 && l.size() as u64 >= lim {
+            return std::ptr::null_mut();
+        }
         let p = System.alloc(l);
         if !p.is_null() {
             add(l.size() as u64);
@@ -31,6 +41,10 @@ unsafe impl GlobalAlloc for Meter {
         System.dealloc(p, l)
     }
     unsafe fn alloc_zeroed(&self, l: Layout) -> *mut u8 {
+        let lim = REFUSE_FROM.load(Ordering::Relaxed);
+        if lim != 0 && l.size() as u64 >= lim {
+            return std::ptr::null_mut();
+        }
         let p = System.alloc_zeroed(l);
         if !p.is_null() {
             add(l.size() as u64);
@@ -38,6 +52,10 @@ unsafe impl GlobalAlloc for Meter {
         p
     }
     unsafe fn realloc(&self, p: *mut u8, l: Layout, new: usize) -> *mut u8 {
+        let lim = REFUSE_FROM.load(Ordering::Relaxed);
+        if lim != 0 && new as u64 >= lim {
+            return std::ptr::null_mut();
+        }
         let q = System.realloc(p, l, new);
         if !q.is_null() {
             LIVE.fetch_sub(l.size() as u64, Ordering::Relaxed);
